@@ -33,6 +33,7 @@ instance : Val Float where
   isInf := Float.isInf
   abs := Float.abs
   c1_1 := 1.1
+  toIntFloor f := f.floor.toInt64.toInt
 
 namespace Drv
 
@@ -116,16 +117,17 @@ partial def parseMatchers : Nat → List String → Option (List Matcher × List
     some (m :: ms, rest)
   | _, _ => none
 
-/-- `sel n matchers… off` -/
-def parseSel : List String → Option (List Matcher × Int × List String)
+/-- `sel n matchers… off at` (`at` = `-` or the `@` timestamp in ms) -/
+def parseSel : List String → Option (List Matcher × Int × Option Int × List String)
   | "sel" :: n :: rest => do
     let n ← n.toNat?
     let (ms, rest) ← parseMatchers n rest
     match rest with
-    | off :: rest => do
+    | off :: atTok :: rest => do
       let off ← off.toInt?
-      some (ms, off, rest)
-    | [] => none
+      let atT ← (if atTok == "-" then some none else (atTok.toInt?).map some)
+      some (ms, off, atT, rest)
+    | _ => none
   | _ => none
 
 def parseRFn : String → Option RFn
@@ -159,13 +161,59 @@ partial def parseExpr : List String → Option (Expr Float × List String)
     let (f, _) ← parseVal v
     some (.num f, rest)
   | "sel" :: rest => do
-    let (ms, off, rest) ← parseSel ("sel" :: rest)
-    some (.sel ms off, rest)
+    let (ms, off, atT, rest) ← parseSel ("sel" :: rest)
+    some (.sel ms off atT, rest)
   | "rfn" :: fn :: rng :: rest => do
     let fn ← parseRFn fn
     let rng ← rng.toInt?
-    let (ms, off, rest) ← parseSel rest
-    some (.rfn fn rng ms off, rest)
+    let (ms, off, atT, rest) ← parseSel rest
+    some (.rfn fn rng ms off atT, rest)
+  | "tssel" :: rest => do
+    let (ms, off, atT, rest) ← parseSel rest
+    some (.tsSel ms off atT, rest)
+  | "ts" :: rest => do
+    let (e, rest) ← parseExpr rest
+    some (.tsOf e, rest)
+  | "subq" :: fn :: rng :: stp :: off :: rest => do
+    let fn ← parseRFn fn
+    let rng ← rng.toInt?
+    let stp ← stp.toInt?
+    let off ← off.toInt?
+    let (e, rest) ← parseExpr rest
+    some (.subq fn rng stp off e, rest)
+  | "set" :: op :: md :: n :: rest => do
+    let op ← (match op with | "and" => some SetOp.and | "or" => some .or | "unless" => some .unless | _ => none)
+    let mode ← (match md with
+      | "none" => some MatchMode.none | "on" => some .on | "ign" => some .ignoring | _ => none)
+    let n ← n.toNat?
+    let (names, rest) ← parseNames n rest
+    let (l, rest) ← parseExpr rest
+    let (r, rest) ← parseExpr rest
+    some (.setop op mode names l r, rest)
+  | "bing" :: op :: b :: md :: n :: rest => do
+    let op ← parseBinOp op
+    let isBool ← (if b == "1" then some true else if b == "0" then some false else none)
+    let mode ← (match md with
+      | "none" => some MatchMode.none | "on" => some .on | "ign" => some .ignoring | _ => none)
+    let n ← n.toNat?
+    let (names, rest) ← parseNames n rest
+    match rest with
+    | side :: m :: rest => do
+      let left ← (if side == "left" then some true else if side == "right" then some false else none)
+      let m ← m.toNat?
+      let (incl, rest) ← parseNames m rest
+      let (l, rest) ← parseExpr rest
+      let (r, rest) ← parseExpr rest
+      some (.binG op isBool mode names incl left l r, rest)
+    | _ => none
+  | "aggk" :: op :: param :: md :: n :: rest => do
+    let op ← (match op with | "topk" => some KAgg.topk | "bottomk" => some .bottomk | "quantile" => some .quantile | _ => none)
+    let (pv, _) ← parseVal param
+    let without ← (if md == "by" then some false else if md == "without" then some true else none)
+    let n ← n.toNat?
+    let (names, rest) ← parseNames n rest
+    let (e, rest) ← parseExpr rest
+    some (.aggK op pv without names e, rest)
   | "agg" :: op :: md :: n :: rest => do
     let op ← parseAggOp op
     let without ← (if md == "by" then some false else if md == "without" then some true else none)
@@ -234,8 +282,17 @@ def parseGiven (s : String) : Option (List Float) :=
 then values are compared bit for bit) -/
 def exactExpr : Expr Float → Bool
   | .num v => v == v.floor && v.abs ≤ 1000
-  | .sel _ _ => true
-  | .rfn fn _ _ _ =>
+  | .sel _ _ _ => true
+  | .tsSel _ _ _ => false
+  | .tsOf _ => false
+  | .subq fn _ _ _ e =>
+    (match fn with
+     | .lastOT | .minOT | .maxOT | .countOT | .sumOT | .presentOT => true
+     | _ => false) && exactExpr e
+  | .setop _ _ _ l r => exactExpr l && exactExpr r
+  | .binG op _ _ _ _ _ l r => op != .div && op != .mul && exactExpr l && exactExpr r
+  | .aggK op _ _ _ e => op != .quantile && exactExpr e
+  | .rfn fn _ _ _ _ =>
     (match fn with
      | .lastOT | .minOT | .maxOT | .countOT | .sumOT | .presentOT => true
      | _ => false)
